@@ -12,6 +12,20 @@ pub fn sanity_verify_context(global: Vec<SideMetadataSpec>, local: Vec<SideMetad
     sanity.verify_metadata_context("verif", &ctx);
 }
 
+/// `verify_metadata_context` once per policy (distinct policy names, the same global specs) on ONE fresh sanity
+/// checker, as plan creation does for the spaces of a plan. Panics when a context is rejected.
+pub fn sanity_verify_contexts(global: Vec<SideMetadataSpec>, locals: Vec<Vec<SideMetadataSpec>>) {
+    use crate::util::metadata::side_metadata::{SideMetadataContext, SideMetadataSanity};
+    const NAMES: [&str; 8] = ["verif0", "verif1", "verif2", "verif3", "verif4", "verif5", "verif6", "verif7"];
+    assert!(locals.len() <= NAMES.len());
+    crate::util::metadata::side_metadata::verif_hooks::sanity_clear_poison();
+    let mut sanity = SideMetadataSanity::new();
+    for (i, local) in locals.into_iter().enumerate() {
+        let ctx = SideMetadataContext { global: global.clone(), local };
+        sanity.verify_metadata_context(NAMES[i], &ctx);
+    }
+}
+
 /// Every space of the current plan with the side metadata specs (global, local) it uses.
 pub fn plan_side_metadata_specs<VM: crate::vm::VMBinding>(
     mmtk: &crate::MMTK<VM>,
